@@ -214,6 +214,10 @@ CONFIGS = {
     "gcc23-paren": ("g++", "-std=c++23 -O1 -DNDEBUG -DMDSPAN_USE_PAREN_OPERATOR=1"),
     "gcc23-san": ("g++", "-std=c++23 -O1 -g -DNDEBUG -fsanitize=address,undefined -fno-sanitize-recover=all"),
     "clang20-san": ("clang++", "-std=c++20 -O1 -g -DNDEBUG -fsanitize=address,undefined -fno-sanitize-recover=all"),
+    "gcc20-tsan": ("g++", "-std=c++20 -O1 -g -DNDEBUG -fsanitize=thread -pthread"),
+    "gcc23-tsan": ("g++", "-std=c++23 -O2 -g -DNDEBUG -fsanitize=thread -pthread"),
+    "clang17-tsan": ("clang++", "-std=c++17 -O1 -g -DNDEBUG -fsanitize=thread -pthread"),
+    "clang20-tsan": ("clang++", "-std=c++20 -O0 -g -DNDEBUG -fsanitize=thread -pthread"),
     "gcc23-dbg": ("g++", "-std=c++23 -O1 -UNDEBUG -D_MDSPAN_DEBUG"),
     "clang17-dbg": ("clang++", "-std=c++17 -O0 -UNDEBUG -D_MDSPAN_DEBUG"),
     "gcc17-assert": ("g++", "-std=c++17 -O1 -UNDEBUG"),
